@@ -55,8 +55,23 @@ func storedFormOK(orig, stored []byte) (bool, string) {
 
 func genCpsValue(rnd *rand.Rand, n int) ([]byte, string) {
 	b := make([]byte, n)
-	kind := []string{"constant", "periodic", "text", "random", "magic-inside", "digits"}[rnd.Intn(6)]
+	kind := []string{"constant", "periodic", "text", "random", "magic-inside", "digits", "near-header"}[rnd.Intn(7)]
 	switch kind {
+	case "near-header":
+		// starts with the magic and a valid algorithm byte, but NOT with the documented header (no CR LF after it), followed by
+		// a valid stream: it is an ordinary value and has to come back as written
+		var bb bytes.Buffer
+		bb.WriteString("(P$\x00")
+		bb.WriteByte("zX\x00\r\n "[rnd.Intn(6)])
+		bb.WriteByte("zX\x00\r "[rnd.Intn(5)]) // never LF: the pair is never CR LF
+		sw := snappy.NewBufferedWriter(&bb)
+		sw.Write(bytes.Repeat([]byte("near-header payload "), 1+n/20))
+		sw.Close()
+		out := bb.Bytes()
+		if n >= 8 && len(out) > n {
+			out = out[:n] // (a truncated stream does not decode: also an ordinary value)
+		}
+		return out, kind
 	case "constant":
 		c := byte('0' + rnd.Intn(10))
 		for i := range b {
@@ -88,8 +103,8 @@ func genCpsValue(rnd *rand.Rand, n int) ([]byte, string) {
 			b[i] = byte('0' + rnd.Intn(10))
 		}
 	}
-	if bytes.HasPrefix(b, []byte("(P$")) {
-		b[0] = 'x'
+	if bytes.HasPrefix(b, cpsHeader) {
+		b[0] = 'x' // values that start with the documented header are outside the property
 	}
 	return b, kind
 }
@@ -650,9 +665,12 @@ func c13EndToEnd(r *ev.Run) {
 		}
 		conn.Do(30*time.Second, []byte("SET"), []byte(key), v)
 		conn.Do(30*time.Second, []byte("HSET"), []byte(key+".h"), []byte("f"), v)
-		for _, en := range []bool{false, true, false} {
+		for step, en := range []bool{false, true, false, true, false} {
 			o := opts
 			o.Compression = &predis.Compression{Enable: en, Algorithm: predis.Compression_SNAPPY, Threshold: t}
+			if step == 4 {
+				o.Compression = nil // the other way of switching it off: the section is removed from the configuration
+			}
 			if err := s.ConfigUpdate(svc.Name, redisConfigJSON(svc.Port, o)); err != nil {
 				r.Internal("config update: %v", err)
 				break
@@ -661,7 +679,7 @@ func c13EndToEnd(r *ev.Run) {
 				got, err := conn.DoS(30*time.Second, rd...)
 				if err != nil || got.Kind != resp.Bulk || !bytes.Equal(got.Str, v) {
 					r.Violation(fmt.Sprintf("C13:e2e-read-back-after-toggle:%s:enable=%v", strings.ToLower(rd[0]), en), "after compression was switched, an earlier value no longer reads back byte-identical",
-						map[string]interface{}{"enable_now": en, "read": rd[:2], "read_back": got.String(), "threshold": t})
+						map[string]interface{}{"enable_now": en, "compression_section_removed": step == 4, "read": rd[:2], "read_back": got.String(), "threshold": t})
 				}
 				r.Case(fmt.Sprintf("e2e/toggle/%v/%s", en, rd[0]))
 			}
